@@ -44,6 +44,14 @@ theorem evalLogic_right_err (op : CmpOp) (e : Err) (l : Value) (h : isErr l = no
     evalLogic op l (.err e) = .ok (.err e) := by
   simp only [evalLogic, isErr_err, h]
 
+theorem evalLogicG_left_err (op : CmpOp) (e : Err) (r : Value) :
+    evalLogicG op (.err e) r = .ok (.err e) := by
+  simp only [evalLogicG, isForeign, Bool.false_and, Bool.false_eq_true, if_false, evalLogic_left_err]
+
+theorem evalLogicG_right_err (op : CmpOp) (e : Err) (l : Value) (h : isErr l = none) :
+    evalLogicG op l (.err e) = .ok (.err e) := by
+  simp only [evalLogicG, isForeign, Bool.and_false, Bool.false_eq_true, if_false, evalLogic_right_err _ _ _ h]
+
 theorem evalAmp_left_err (e : Err) (r : Value) : evalAmp (.err e) r = .ok (.err e) := by
   simp only [evalAmp, isErr_err]
 
@@ -53,12 +61,12 @@ theorem evalAmp_right_err (e : Err) (l : Value) (h : isErr l = none) :
 
 theorem binOfOp_left_err (op : BinOp) (e : Err) (v : Value) :
     binOfOp op (.err e) v = .ok (.err e) := by
-  cases op <;> simp only [binOfOp, evalArith_left_err, evalAmp_left_err, evalLogic_left_err]
+  cases op <;> simp only [binOfOp, evalArith_left_err, evalAmp_left_err, evalLogicG_left_err]
 
 theorem binOfOp_right_err (op : BinOp) (e : Err) (v : Value) (h : isErr v = none) :
     binOfOp op v (.err e) = .ok (.err e) := by
   cases op <;>
-    simp only [binOfOp, evalArith_right_err _ _ _ _ h, evalAmp_right_err _ _ h, evalLogic_right_err _ _ _ h]
+    simp only [binOfOp, evalArith_right_err _ _ _ _ h, evalAmp_right_err _ _ h, evalLogicG_right_err _ _ _ h]
 
 /-- on two operands that are neither errors nor arrays `evaluate_arithmetic` is the scalar table
     lookup (used to evaluate concrete examples: `evalArith` is defined by well-founded recursion) -/
@@ -669,7 +677,9 @@ def resolve (env : Env) (name : List Char) : Option HostFn :=
   | none =>
     if Builtins.isRegistered (String.ofList name) then
       match Builtins.model? (String.ofList name) with
-      | some b => some (fun a => match b a with | .ok v => .ok v | .error e => .error (.xl e))
+      | some b => some (fun a => match b a with
+            | .ok v => if isNoOpinion v then .error .unmodelled else .ok v
+            | .error e => .error (.xl e))
       | none => some (fun _ => .error .unmodelled)
     else none
 
@@ -691,7 +701,9 @@ theorem resolve_custom {env : Env} {name : List Char} {f : HostFn} (h : env.cust
 theorem resolve_builtin {env : Env} {name : List Char} {b : Builtins.Builtin}
     (hc : env.custom name = none) (hr : Builtins.isRegistered (String.ofList name) = true)
     (hm : Builtins.model? (String.ofList name) = some b) :
-    resolve env name = some (fun a => match b a with | .ok v => .ok v | .error e => .error (.xl e)) := by
+    resolve env name = some (fun a => match b a with
+            | .ok v => if isNoOpinion v then .error .unmodelled else .ok v
+            | .error e => .error (.xl e)) := by
   simp only [resolve, hc, hr, hm, if_true]
 
 /-- the error a function body produces: returned as a value, raised as an `XLError`, or any
@@ -727,28 +739,53 @@ theorem callFunction_value {env : Env} {name : List Char} {f : HostFn} {args : L
     callFunction env name args log = (.ok v, log ++ [.fn name args]) := by
   rw [callFunction_eq, hf]; simp only []; rw [hv]
 
+/-- `isNoOpinion` is true only for (some) foreign values: every known value has an opinion -/
+@[simp] theorem isNoOpinion_num (n : Num) : isNoOpinion (.num n) = false := rfl
+@[simp] theorem isNoOpinion_str (s : List Char) : isNoOpinion (.str s) = false := rfl
+@[simp] theorem isNoOpinion_bool (b : Bool) : isNoOpinion (.bool b) = false := rfl
+@[simp] theorem isNoOpinion_blank : isNoOpinion .blank = false := rfl
+@[simp] theorem isNoOpinion_err (e : Err) : isNoOpinion (.err e) = false := rfl
+@[simp] theorem isNoOpinion_date (d : Int) : isNoOpinion (.date d) = false := rfl
+@[simp] theorem isNoOpinion_arr (xs : List Value) : isNoOpinion (.arr xs) = false := rfl
+
+/-- a "no opinion" value is a foreign value -/
+theorem isNoOpinion_eq_true {v : Value} (h : isNoOpinion v = true) : ∃ t, v = .other t := by
+  cases v <;> first | exact ⟨_, rfl⟩ | cases h
+
 /-- a modelled registered builtin that is not shadowed: the call's value is what the builtin
-    returns, or the error it raises -/
+    returns, or the error it raises -- when the model of the builtin has an opinion about it -/
 theorem callFunction_builtin {env : Env} {name : List Char} {b : Builtins.Builtin}
     (hc : env.custom name = none) (hr : Builtins.isRegistered (String.ofList name) = true)
-    (hm : Builtins.model? (String.ofList name) = some b) (args : List Value) (log : Log) :
+    (hm : Builtins.model? (String.ofList name) = some b) (args : List Value) (log : Log)
+    (hno : isNoOpinion (match b args with | .ok v => v | .error e => .err e) = false) :
     callFunction env name args log =
       (.ok (match b args with | .ok v => v | .error e => .err e), log ++ [.fn name args]) := by
   rw [callFunction_eq, resolve_builtin hc hr hm]
   simp only []
-  cases b args with
-  | ok v => rfl
+  cases hb : b args with
+  | ok v => rw [hb] at hno; simp only [] at hno; simp only [hno]; rfl
   | error e => simp only [toErr_xl]
+
+/-- a modelled registered builtin that is not shadowed and whose model has NO opinion about the
+    result: the evaluation is `unmodelled` (the model does not say), nothing is logged -/
+theorem callFunction_builtin_noOpinion {env : Env} {name : List Char} {b : Builtins.Builtin}
+    (hc : env.custom name = none) (hr : Builtins.isRegistered (String.ofList name) = true)
+    (hm : Builtins.model? (String.ofList name) = some b) (args : List Value) (log : Log) {v : Value}
+    (hv : b args = .ok v) (hno : isNoOpinion v = true) :
+    callFunction env name args log = (.error .unmodelled, log) := by
+  rw [callFunction_eq, resolve_builtin hc hr hm]
+  simp only [hv, hno, if_true]
 
 /-- the value of a call of a modelled, unshadowed builtin written with a flat argument list -/
 theorem outcome_builtin_call {env : Env} {name : List Char} {b : Builtins.Builtin}
     (hc : env.custom name = none) (hr : Builtins.isRegistered (String.ofList name) = true)
     (hm : Builtins.model? (String.ofList name) = some b) {args : List Expr} {vs : List Value}
-    (hargs : outcomes env args = .ok vs) :
+    (hargs : outcomes env args = .ok vs)
+    (hno : isNoOpinion (match b vs with | .ok v => v | .error e => .err e) = false) :
     outcome env (.call name .flat args []) = .ok (match b vs with | .ok v => v | .error e => .err e) := by
   rw [outcome_call, hargs, outcomes_nil]
   simp only [bind, Except.bind, seqValues]
-  rw [callFunction_builtin hc hr hm]
+  rw [callFunction_builtin hc hr hm _ _ (by simpa [seqValues] using hno)]
 
 theorem outcomes_one {env : Env} {x : Expr} {v : Value} (h : outcome env x = .ok v) :
     outcomes env [x] = .ok [v] := by
@@ -854,7 +891,7 @@ theorem outcome_naCall : outcome Env.empty naCall = .ok (.err .na) := by
       .ok (match Fn.Info.NA [] with | .ok v => v | .error e => .err e) := by
     rw [naCall, outcome_call, outcomes_nil]
     simp only [bind, Except.bind, seqValues]
-    rw [callFunction_builtin (b := Fn.Info.NA) rfl (by decide) (by rfl)]
+    rw [callFunction_builtin (b := Fn.Info.NA) rfl (by decide) (by rfl) _ _ rfl]
   rw [h]; rfl
 
 /-- an environment with the host functions of the harness: `ID(x) = x`, `RAISE_NUM()` raises the
@@ -870,7 +907,9 @@ def envH : Env :=
 theorem envH_no_shadow : ∀ n ∈ trapNames, envH.custom n = none := by decide
 
 theorem envH_SUM : resolve envH "SUM".toList =
-    some (fun a => match Fn.Agg.SUM a with | .ok v => .ok v | .error e => .error (.xl e)) :=
+    some (fun a => match Fn.Agg.SUM a with
+      | .ok v => if isNoOpinion v then .error .unmodelled else .ok v
+      | .error e => .error (.xl e)) :=
   resolve_builtin (by decide) (by decide) (by rfl)
 
 end HotXL.ErrorFlow
